@@ -1,5 +1,15 @@
-(* C17 -- INPUT cuts a reply at the commas outside double quotes.  Statements only; proofs in Proofs/Input.v. *)
-From BL Require Import Base.Prelude Mach.Val Mach.Compile Mach.Runtime Proofs.Input.
+(* C17 -- INPUT parses replies as documented and retries per reply.
+   Proved (Proofs/Input.v): the reply is cut at the commas outside double quotes -- nothing lost, nothing invented, exact on
+   well-quoted fields.  Proved (Proofs/InputProto.v), for every machine state: the prompt event is the program's prompt
+   followed by "? " with capitals off exactly for the Integer-0 flag; a reply with the wrong number of fields or over the
+   length limit is refused as a whole, changing nothing but the state; the refusal is reported as REDO FROM START and the
+   machine prompts again; an accepted reply puts a return address under its fields, first field on top, without touching a
+   variable; one field becomes a string (trimmed, one pair of quotes removed) or a number (0 when empty); an error while
+   the fields are stored cuts the stack back below that return address, goes back to the INPUT statement and refuses the
+   reply.
+   NOT proved: number syntax of a field (val_from_str: decimal, exponent, & and &H forms) against the manual; that the
+   compiled INPUT statement drives these steps in the documented order (differential). *)
+From BL Require Import Base.Prelude Mach.Val Mach.Func Mach.Compile Mach.Listing Mach.Runtime Proofs.Input Proofs.InputProto.
 Local Open Scope N_scope.
 
 Theorem C17_split_single : forall s, ~ In 44 s -> ~ In 34 s -> split_fields s [] false = [s].
@@ -20,3 +30,51 @@ Print Assumptions C17_split_exact.
 Theorem C17_split_nonempty : forall s cur q, split_fields s cur q <> [].
 Proof. exact split_nonempty. Qed.
 Print Assumptions C17_split_nonempty.
+
+(* ---- the protocol (Proofs/InputProto.v) ---- *)
+Theorem C17_prompt_event : forall O r len caps p rest k, r_state r = StInput -> r_stack r = len :: caps :: VStr p :: rest ->
+  r_slen r <= MAX_POOL ->
+  exists r', rt_execute O r k = Ok (r', EvInput (p ++ [63; 32]) (negb (match caps with VInt n => (n =? 0)%Z | _ => false end)))
+             /\ r_stack r' = len :: caps :: VStr p :: rest /\ r_col r' = 0 /\ r_vars r' = r_vars r /\ r_pc r' = r_pc r.
+Proof. exact prompt_event. Qed.
+Print Assumptions C17_prompt_event.
+
+Theorem C17_wrong_field_count : forall O r s n rest, r_stack r = VInt n :: rest -> (1 < n)%Z -> utf8_len s <= MAX_LINE_LEN ->
+  Z.of_N (lenN (split_fields s [] false)) <> n -> enter_input O r s = set_state r StInputRedo.
+Proof. exact wrong_field_count. Qed.
+Print Assumptions C17_wrong_field_count.
+
+Theorem C17_long_reply_refused : forall O r s, MAX_LINE_LEN < utf8_len s -> enter_input O r s = set_state r StInputRedo.
+Proof. exact long_reply_refused. Qed.
+Print Assumptions C17_long_reply_refused.
+
+Theorem C17_redo_reported : forall O r k, r_state r = StInputRedo ->
+  rt_execute O r k = Ok (set_state r StInput, EvErrors [mkErr E_Redo None (0, 0)]).
+Proof. exact redo_reported. Qed.
+Print Assumptions C17_redo_reported.
+
+Theorem C17_reply_accepted : forall O r s n rest, r_stack r = VInt n :: rest -> utf8_len s <= MAX_LINE_LEN ->
+  let fields := if (n <=? 1)%Z then [s] else split_fields s [] false in
+  ((n <=? 1)%Z = true \/ Z.of_N (lenN fields) = n) -> r_slen r + 1 + lenN fields <= MAX_POOL ->
+  let r' := enter_input O r s in
+  r_stack r' = map VStr fields ++ VRet (r_pc r) :: VInt n :: rest /\ r_state r' = StInputRunning
+  /\ r_vars r' = r_vars r /\ r_pc r' = r_pc r /\ r_prog r' = r_prog r.
+Proof. exact reply_accepted. Qed.
+Print Assumptions C17_reply_accepted.
+
+Theorem C17_field_conversion : forall r name field rest c0 nm, r_state r = StInputRunning -> name = c0 :: nm ->
+  r_stack r = VStr field :: rest -> r_slen r <= MAX_POOL ->
+  do_input name r =
+  (set_stack_len r ((if ends_with_chr name 36 then VStr (strip_quotes (trim field))
+                     else match trim field with [] => VInt 0 | f => val_from_str f end) :: rest) (r_slen r - 1 + 1), Ok None).
+Proof. exact field_conversion. Qed.
+Print Assumptions C17_field_conversion.
+
+Theorem C17_store_error_retries : forall O r k r2 e above a below,
+  r_state r = StInputRunning -> ls_dir_errors (r_listing r) = [] ->
+  exec_loop O (N.to_nat k) (match ls_ind_errors (r_listing r) with [] => false | _ => true end) r = (r2, Err e) ->
+  r_state r2 = StInputRunning -> r_stack r2 = above ++ VRet a :: below ->
+  (forall v, In v above -> match v with VRet _ => False | _ => True end) ->
+  rt_execute O r k = Ok (set_state (set_pc (set_stack r2 below) a) StInputRedo, EvRunning).
+Proof. exact store_error_retries. Qed.
+Print Assumptions C17_store_error_retries.
